@@ -31,13 +31,14 @@ def c18EventJson : Event → Json
 /-- `c18.run {ops, subscribers}` → per subscriber the delivered events, the number of dials, the live connections,
     and per op the number of events it delivers -/
 def c18run (args : Json) : Json :=
-  let (st, expect) := (args.arrD "ops").foldl (fun (acc : St × List Nat) j =>
+  let (st, expect, connsAfter) := (args.arrD "ops").foldl (fun (acc : St × List Nat × List Nat) j =>
     match c18Resolve acc.1 j with
-    | some a => let st' := step acc.1 a; (st', acc.2 ++ [st'.log.length - acc.1.log.length])
-    | none => (acc.1, acc.2 ++ [0])) (({} : St), [])
+    | some a => let st' := step acc.1 a; (st', acc.2.1 ++ [st'.log.length - acc.1.log.length], acc.2.2 ++ [st'.conns.length])
+    | none => (acc.1, acc.2.1 ++ [0], acc.2.2 ++ [acc.1.conns.length])) (({} : St), [], [])
   .obj [("dials", Json.ofNat st.dials),
         ("conns", .arr (st.conns.map fun c => .obj [("cid", Json.ofNat c.cid), ("key", Json.ofNat c.key),
             ("regs", .arr (c.regs.map fun r => .obj [("id", Json.ofNat r.id), ("sub", Json.ofNat r.sub)]))])),
         ("delivered", .arr ((List.range (args.natD "subscribers")).map fun s => .arr ((delivered st s).map c18EventJson))),
-        ("expect", .arr (expect.map Json.ofNat))]
+        ("expect", .arr (expect.map Json.ofNat)),
+        ("connsAfter", .arr (connsAfter.map Json.ofNat))]
 end GqlVerif.Driver
